@@ -40,31 +40,6 @@ def total (pieces : List Win) : Nat := (pieces.map (·.len)).sum
 no piece reaches beyond the used area -/
 def Tiles (pieces : List Win) (used : Nat) : Prop := ∀ x, cover pieces x = if x < used then 1 else 0
 
-/-- one entry of the abstract bank: where the client was told to read, and what it asked for -/
-structure Entry where
-  win : Win
-  wanted : Bytes
-  rate : Nat
-
-/-- the abstract bank a client can observe -/
-structure View where
-  used : Nat
-  bank : Nat
-  rom : Bytes
-  entries : List Entry
-  regions : List Win      -- bytes handed out by fresh placements
-  gaps : List Win         -- alignment gaps
-
-/-- the invariant of the property statement -/
-structure View.Ok (v : View) : Prop where
-  used_le : v.used ≤ v.rom.length
-  inside : ∀ e ∈ v.entries, e.win.inside v.used
-  content : ∀ e ∈ v.entries, e.win.reads v.rom = e.wanted
-  housed : ∀ e ∈ v.entries, ∃ r ∈ v.regions, r.lo ≤ e.win.lo ∧ e.win.hi ≤ r.hi
-  banked : ∀ e ∈ v.entries, bankRule v.bank e.win
-  tiles : Tiles (v.regions ++ v.gaps) v.used
-  account : total v.regions + total v.gaps = v.used
-
 /-! ### PCM recordings and their canonical file -/
 
 /-- a recording: `frames[j][c]` is the raw sample of channel `c` in frame `j` (8-bit files:
